@@ -42,6 +42,12 @@ class Ctx:
         self.exhaustive = False
         self.remarks = []
         self.machinery_error = None
+        import glob
+        for old in glob.glob(os.path.join(REPLAY, pid + "-*.json")):
+            try:
+                os.remove(old)
+            except OSError:
+                pass
         fs = [f for f in load_findings() if f["property"] == pid]
         self.open_findings = {f["id"]: f for f in fs if f.get("status") == "open"}
         self.fixed_findings = {f["id"]: f for f in fs if f.get("status") == "fixed"}
